@@ -52,6 +52,9 @@ pub fn alphabet() -> Vec<P> {
                 Ann::LotRateAndCost("2", o, "3"),
                 Ann::Rate("0", o),
                 Ann::Rate("1", same_c(c)),
+                // a total written with a minus sign: the posting is valued at |total| with the sign of the amount
+                Ann::Total("-2", o),
+                Ann::LotTotal("-2", o),
             ] {
                 v.push(P::amt("?", val, same_c(c)).with_ann(ann));
             }
